@@ -67,12 +67,18 @@ inductive RawOp (V : Type) where
   | sf (f : Nat)
   | rev
   | app (m : RawMesh V)
+  | tv (iso : List Float)
+
+def repP {α} (p : P α) : Nat → P (List α)
+  | 0 => pure []
+  | k + 1 => do let x ← p; let xs ← repP p k; pure (x :: xs)
 
 def pop {V} (pv : P V) : P (RawOp V) := do
   let t ← tok
   if t = "sf" then do let f ← pnat; pure (.sf f)
   else if t = "rev" then pure .rev
   else if t = "app" then do let m ← pmesh pv; pure (.app m)
+  else if t = "tv" then do let n ← pnat; let xs ← repP pf n; pure (.tv xs)
   else failure
 
 def pcase {V} (pv : P V) : P (RawMesh V × List (RawOp V)) := do
@@ -92,8 +98,11 @@ def showCC : Option CC → List String
 
 class ShowN (N : Type) where
   showN : N → List String
-instance : ShowN (V3 Float) := ⟨fun v => [ff v.x, ff v.y, ff v.z]⟩
-instance : ShowN Unit := ⟨fun _ => []⟩
+  /-- `Isometry * Vector` (rotation only) -/
+  isoRot : List Float → N → N
+instance : ShowN (V3 Float) := ⟨fun v => [ff v.x, ff v.y, ff v.z],
+  fun xs n => (⟨xs.getD 0 0, xs.getD 1 0, xs.getD 2 0, xs.getD 3 0, ⟨0, 0, 0⟩⟩ : Iso3 Float).rot n⟩
+instance : ShowN Unit := ⟨fun _ => [], fun _ n => n⟩
 /-- printing of vertices, and the box operations of `Triangle::local_aabb` / `Aabb::merged` (Rust `f64::min/max`) -/
 class ShowV (V : Type) where
   showV : V → List String
@@ -102,9 +111,16 @@ class ShowV (V : Type) where
   /-- `Aabb::new_invalid()`: mins = `+f64::MAX`, maxs = `-f64::MAX` -/
   invMin : V
   invMax : V
+  /-- `Isometry * Point` for the isometry given by its protocol components -/
+  isoAct : List Float → V → V
 def fmaxv : Float := Float.ofBits 0x7FEFFFFFFFFFFFFF
-instance : ShowV (V3 Float) := ⟨fun v => [ff v.x, ff v.y, ff v.z], V3.inf, V3.sup, ⟨fmaxv, fmaxv, fmaxv⟩, ⟨-fmaxv, -fmaxv, -fmaxv⟩⟩
-instance : ShowV (V2 Float) := ⟨fun v => [ff v.x, ff v.y], V2.inf, V2.sup, ⟨fmaxv, fmaxv⟩, ⟨-fmaxv, -fmaxv⟩⟩
+def iso3Of (xs : List Float) : Iso3 Float :=
+  ⟨xs.getD 0 0, xs.getD 1 0, xs.getD 2 0, xs.getD 3 0, ⟨xs.getD 4 0, xs.getD 5 0, xs.getD 6 0⟩⟩
+def iso2Of (xs : List Float) : Iso2 Float := ⟨xs.getD 0 0, xs.getD 1 0, ⟨xs.getD 2 0, xs.getD 3 0⟩⟩
+instance : ShowV (V3 Float) := ⟨fun v => [ff v.x, ff v.y, ff v.z], V3.inf, V3.sup, ⟨fmaxv, fmaxv, fmaxv⟩, ⟨-fmaxv, -fmaxv, -fmaxv⟩,
+  fun xs p => (iso3Of xs).act p⟩
+instance : ShowV (V2 Float) := ⟨fun v => [ff v.x, ff v.y], V2.inf, V2.sup, ⟨fmaxv, fmaxv⟩, ⟨-fmaxv, -fmaxv⟩,
+  fun xs p => (iso2Of xs).act p⟩
 
 /-- `Triangle::local_aabb` -/
 def triBox {V} [ShowV V] (c : V × V × V) : V × V :=
@@ -168,6 +184,10 @@ def runOps {V N} [Geo V N] [ShowV V] [ShowN N] (w dim3 : Bool) : Mesh V N → Li
       | none => [["panic"]]
       | some s' => showState w dim3 s' :: runOps w dim3 s' ops
     | _ => ["rhsfail"] :: runOps w dim3 s ops
+  | s, .tv xs :: ops =>
+    match transformVertices (ShowV.isoAct xs) (ShowN.isoRot xs) s with
+    | none => [["panic"]]
+    | some s' => showState w dim3 s' :: runOps w dim3 s' ops
 
 def runHist {V N} [Geo V N] [ShowV V] [ShowN N] (w dim3 : Bool) (m : RawMesh V) (ops : List (RawOp V)) : String :=
   match (if w then withFlagsW (N := N) dim3 m.vs m.idx (Flags.ofNat m.flags) else withFlags (N := N) dim3 m.vs m.idx (Flags.ofNat m.flags)) with
@@ -383,15 +403,34 @@ def checkBox (dim : Nat) (s : OState) : Option String :=
   | some k => some s!"spec:A root-aabb-axis-{k}"
   | none => if s.q = 1 then none else some "qbvh-differs-from-fresh"
 
-def judgeState (dim3 : Bool) (s : OState) : Option String :=
+/-- some triangle is (nearly) flat: `|ab × ac|² ≤ 1e-12 · (longest edge)⁴`.  After a `transform_vertices` such a triangle is
+rounding-sensitive: an exactly degenerate triangle (`Triangle::normal() = None`) is no longer exactly degenerate in the
+rotated frame and a fresh build gives it a unit normal made of rounding noise, while the exact model (and the rotated cached
+data) say `None`.  The pseudo-normal comparison is skipped on these states (DESIGN §3, rounding-sensitive inputs). -/
+def nearlyFlat (s : OState) : Bool :=
+  s.idx.any fun t =>
+    match s.coords[t.a]?, s.coords[t.b]?, s.coords[t.c]? with
+    | some a, some b, some c =>
+      if a.length != 3 then false else
+      let A : V3 Rat := ⟨q (a.getD 0 0), q (a.getD 1 0), q (a.getD 2 0)⟩
+      let B : V3 Rat := ⟨q (b.getD 0 0), q (b.getD 1 0), q (b.getD 2 0)⟩
+      let C : V3 Rat := ⟨q (c.getD 0 0), q (c.getD 1 0), q (c.getD 2 0)⟩
+      let n2 := ((B.sub A).cross (C.sub A)).normSq
+      let m := max (max (B.sub A).normSq (C.sub A).normSq) (C.sub B).normSq
+      decide (n2 * 1000000000000 ≤ m * m)
+    | _, _, _ => false
+
+def judgeState (dim3 : Bool) (s : OState) (afterTransform : Bool := false) : Option String :=
+  let dropPN (fs : List String) : List String :=
+    if afterTransform && nearlyFlat s then fs.filter (fun f => f != "Pv" && f != "Pe") else fs
   let g : Option String := match s.der with
     | none => none
-    | some d => match diffDerived s.d d with
+    | some d => match dropPN (diffDerived s.d d) with
       | [] => none
       | fs => some ("differs-from-fresh(G) fields=" ++ ",".intercalate fs)
   let l : Option String := match s.lit with
     | none => if s.litTag = "panic" then some "fresh-build-panics" else none
-    | some d => match diffDerived s.d d with
+    | some d => match dropPN (diffDerived s.d d) with
       | [] => none
       | fs => some ("differs-from-fresh(L) fields=" ++ ",".intercalate fs)
   match g, l, specCheck dim3 s, checkBox (if dim3 then 3 else 2) s, checkBuffers s with
@@ -418,6 +457,7 @@ def opName {V} : RawOp V → String
   | .sf f => s!"sf({f})"
   | .rev => "rev"
   | .app m => s!"app({m.flags})"
+  | .tv _ => "tv"
 
 def oracleHist {V} (dim : Nat) (dim3 : Bool) (m : RawMesh V) (ops : List (RawOp V)) (out : List String) : String :=
   let segs := splitSegs out
@@ -440,7 +480,7 @@ def oracleHist {V} (dim : Nat) (dim3 : Bool) (m : RawMesh V) (ops : List (RawOp 
         match run (pstate dim) (stripRes seg) with
         | none => s!"fail step={k} hist={hist} unparsable-output"
         | some s =>
-          match judgeState dim3 s with
+          match judgeState dim3 s ((hist.splitOn ">").contains "tv") with
           | some e => s!"fail step={k} hist={hist} {e}"
           | none => go rest nms (k + 1) hist (judged + 1)
     | _ :: _, [] => "fail more-segments-than-ops"
@@ -456,7 +496,8 @@ def finalState {V N} [Geo V N] (dim3 : Bool) (m : RawMesh V) (ops : List (RawOp 
       | .rev => reverse dim3 s
       | .app r => match withFlags (N := N) dim3 r.vs r.idx (Flags.ofNat r.flags) with
         | .ok rhs => append dim3 s rhs
-        | _ => some s) s
+        | _ => some s
+      | .tv _ => some s) s
   | _ => none
 
 inductive Hit where
